@@ -694,7 +694,18 @@ func (w *vfC16World) settle(e *vfC16Exp, base int64, minWait, timerWait time.Dur
 	if e != nil && !matched {
 		w.mismatch = true
 	}
-	rec = w.project(true)
+	// The queries that show which nodes are offered belong to the step: picking a connection from
+	// a pool without connections starts a fill, and a fill that fails reports its address as
+	// down some 100 ms later.  Let that finish, then take the state that is recorded.
+	served := w.project(true).Served
+	for t1 := time.Now(); !w.idle() && time.Since(t1) < 2*time.Second; {
+		time.Sleep(3 * time.Millisecond)
+	}
+	rec = w.project(false)
+	rec.Served = served
+	if e != nil && matched && !w.matches(rec, e, int(atomic.LoadInt64(&w.peersQ)-base)) {
+		matched, w.mismatch = false, true
+	}
 	rec.Refreshes = int(atomic.LoadInt64(&w.peersQ) - base)
 	return rec, matched, time.Since(t0)
 }
